@@ -204,7 +204,7 @@ PROPS["C11"] = {
     "thorough_runs": 45000,
     "quick_wall": 300,
     "thorough_wall": 2400,
-    "params": {"isa_weights": [75, 15, 10], "k": 4, "insfn_p": 0.05, "constraints_p": 0.3, "repeat_p": 0.08, "no_temp_refs": True, "extern_p": 0.1},
+    "params": {"isa_weights": [75, 15, 10], "k": 4, "insfn_p": 0.05, "constraints_p": 0.3, "repeat_p": 0.08, "no_temp_refs": True, "extern_p": 0.1, "shared_block_p": 0.15},
     "thorough_params": {"k": 8},
     "rule": "each seeded scenario is executed under K schedules (quick K=4, thorough K=8): fresh UUID stream, fresh node-hash salt "
     "(= iteration order of every set/dict of gtirb nodes), another PYTHONHASHSEED (helper interpreters), and a permuted "
